@@ -132,6 +132,15 @@ func minimise(b *fsbox, cs Case, class string) Case {
 			try(x)
 		}
 	}
+	// no BOM lead
+	for i, e := range cur.Entries {
+		if e.Lead != "" {
+			x := cur
+			x.Entries = append([]Entry{}, cur.Entries...)
+			x.Entries[i].Lead = ""
+			try(x)
+		}
+	}
 	// simplest delivery route
 	for i, e := range cur.Entries {
 		if e.Route != "" {
